@@ -19,17 +19,17 @@ def parseAux : List Str → Option (Str × List Str) → List (Item Str) → Opt
 
 def parseDoc (ls : List Str) : Option (List (Item Str)) := parseAux ls none []
 
-def Item.freshOKB (keys : List Str) : Item Str → Bool
-  | .text l => !isUserTag l && !keys.contains (cleanUp l)
+def Item.freshOKB : Item Str → Bool
+  | .text l => !isUserTag l
   | .block o cl b => b.isEmpty && isUserTag o && isUserTag cl && cleanUp cl == cleanUp o
       && cleanUp (expandTabs o) == cleanUp o && cleanUp (expandTabs cl) == cleanUp o
 
 /-- decidable form of `FreshDoc strCfg expandTabs` -/
 def freshDocB (F : List (Item Str)) : Bool :=
-  F.all (Item.freshOKB (blockKeys strCfg F)) && decide (blockKeys strCfg F).Nodup
+  F.all Item.freshOKB && decide (blockKeys strCfg F).Nodup
 
 /-- a freshly generated file is regenerable: parses, tag pairs empty with equal TAB-stable
-    keys, keys unique, no other line cleans to a tag key -/
+    keys, keys unique, no other line carries the tag prefix -/
 def wfFresh (ls : List Str) : Bool :=
   match parseDoc ls with
   | some F => freshDocB F
